@@ -36,7 +36,7 @@ def gen_argv(r):
     k = r.below(10)
     if k < 3:
         g = gen.QGen(r, roots=[".", "d1", "./d1"])
-        q = g.query(want_agg=r.chance(1, 6))
+        q = g.query(want_agg=r.chance(1, 3))
         rd = gen.Render(r, case=r.chance(1, 2), aliases=r.chance(1, 2), curly=r.chance(1, 4))
         text = rd.text(q)
         return ("valid", [text] if r.chance(1, 2) else gen.split_args(r, text))
